@@ -18,7 +18,25 @@ use std::time::{Duration, Instant};
 // operations
 // ---------------------------------------------------------------------------
 
-const INPUTS: [&str; 7] = ["abc", "Abc", "\u{e9}\u{3000}\u{ff22}", "\u{a8}a", "a\u{9}", "\u{5d0}1", "\u{5d0}a"];
+const INPUTS: [&str; 11] = [
+    "abc",
+    "Abc",
+    "\u{e9}\u{3000}\u{ff22}",
+    "\u{a8}a",
+    "a\u{9}",
+    "\u{5d0}1",
+    "\u{5d0}a",
+    "\u{e9}",             // letter without compatibility decomposition
+    "\u{aa}",             // HasCompat: rejected by IdentifierClass, accepted by FreeformClass
+    "a\u{ff22}\u{ff76}", // width-mapped characters from the middle of the mapping table
+    "\u{e0}",             // the oldest entry of the warm-up history
+];
+
+/// a call history executed by the driver thread of the child *before* the scheduled threads
+/// start: `n` distinct non-ASCII letters (fills per-code-point caches of that size)
+fn warm_up(n: usize) -> String {
+    (0..n).filter_map(|i| char::from_u32(0xE0 + i as u32 + (i as u32 / 23) * 9)).filter(|c| c.is_alphabetic()).collect()
+}
 
 #[derive(Copy, Clone, Debug, PartialEq, Eq)]
 enum P {
@@ -284,8 +302,17 @@ struct Execution {
     points: usize,
 }
 
+static WARM: std::sync::atomic::AtomicUsize = std::sync::atomic::AtomicUsize::new(0);
+
 fn execute_here(threads: &[Vec<Call>], prefix: &[usize]) -> Execution {
     verif::reset_all();
+    let w = WARM.load(std::sync::atomic::Ordering::SeqCst);
+    if w > 0 {
+        // uncontrolled, single-threaded history before the scheduled part
+        let s = warm_up(w);
+        let _ = <UsernameCasePreserved as PrecisFastInvocation>::prepare(s.as_str());
+        let _ = <Nickname as PrecisFastInvocation>::prepare(s.as_str());
+    }
     let n = threads.len();
     let sched = Arc::new(Sched::new(n, prefix.to_vec()));
     verif::install(Some(sched.clone() as Arc<dyn Scheduler>));
@@ -528,7 +555,9 @@ impl<'a> Explorer<'a> {
         }
         for (l, n) in &x.derefs {
             let i = x.inits.get(l).copied().unwrap_or(0);
-            if *n > 0 && i != 1 {
+            // after a warm-up history the singleton may already exist (0 initialisations here)
+            let warmed = WARM.load(std::sync::atomic::Ordering::SeqCst) > 0;
+            if *n > 0 && (i > 1 || (i == 0 && !warmed)) {
                 problems.push(format!("lazy {:#x} dereferenced {} times but initialiser ran {} times", l, n, i));
             }
         }
@@ -619,6 +648,13 @@ fn scenarios(thorough: bool) -> Vec<(String, Vec<Vec<Call>>, usize)> {
     let b3 = if thorough { unbounded } else { 2 };
     v.push(("3x1-nick".into(), vec![vec![(P::Nick, O::Enforce, 3)], vec![(P::Nick, O::Compare, 1)], vec![(P::Nick, O::Prepare, 4)]], b3));
     v.push(("3x1-mixed".into(), vec![vec![(P::Ucm, O::Enforce, 6)], vec![(P::Ucp, O::Compare, 5)], vec![(P::Opq, O::Enforce, 2)]], b3));
+    // every per-code-point answer raced against a conflicting one (compat / non-compat, mapped / unmapped)
+    v.push(("2x2-classes".into(), vec![vec![(P::Ucp, O::Prepare, 7), (P::Ucp, O::Prepare, 8)], vec![(P::Ucp, O::Prepare, 8), (P::Ucp, O::Prepare, 9)]], unbounded));
+    // non-initial state: the child first runs a call history over N distinct letters, then two threads
+    // look up the oldest letter of that history and a letter of a different class
+    for n in if thorough { vec![8usize, 16, 32, 64] } else { vec![32usize] } {
+        v.push((format!("warm{}-2x1", n), vec![vec![(P::Ucp, O::Prepare, 10)], vec![(P::Ucp, O::Prepare, 8)]], unbounded));
+    }
     if thorough {
         v.push(("3x2-nick-b3".into(), vec![vec![(P::Nick, O::Enforce, 3), (P::Nick, O::Compare, 1)], vec![(P::Nick, O::Compare, 2), (P::Nick, O::Enforce, 0)], vec![(P::Nick, O::Prepare, 4), (P::Nick, O::Enforce, 5)]], 3));
         v.push(("3x2-all-b3".into(), vec![vec![(P::Ucm, O::Enforce, 1), (P::Nick, O::Compare, 1)], vec![(P::Ucp, O::Compare, 2), (P::Ucm, O::Enforce, 5)], vec![(P::Nick, O::Prepare, 3), (P::Opq, O::Enforce, 2)]], 3));
@@ -639,6 +675,8 @@ fn main() {
         let out = match sc {
             None => json!({"error": "unknown scenario"}),
             Some((name, threads, bound)) => {
+                let warm = name.strip_prefix("warm").and_then(|r| r.split('-').next()).and_then(|n| n.parse::<usize>().ok()).unwrap_or(0);
+                WARM.store(warm, std::sync::atomic::Ordering::SeqCst);
                 let expected: Vec<Vec<String>> = expected_results(&threads);
                 let mut e = Explorer { threads: &threads, expected, bound, executions: 0, transitions: 0, max_points: 0, outcomes: BTreeMap::new(), violations: vec![], cap: 1, capped: false, name, pruned: false, last_round: 0, t0: Instant::now(), wall_cap: Duration::from_secs(60) };
                 let a = execute(&threads, &ch);
@@ -658,6 +696,8 @@ fn main() {
     let mut errors: Vec<String> = Vec::new();
     let cap = if thorough { 2_000_000 } else { 60_000 };
     for (name, threads, bound) in scenarios(thorough) {
+        let warm = name.strip_prefix("warm").and_then(|r| r.split('-').next()).and_then(|n| n.parse::<usize>().ok()).unwrap_or(0);
+        WARM.store(warm, std::sync::atomic::Ordering::SeqCst);
         let expected: Vec<Vec<String>> = expected_results(&threads);
         let t0 = Instant::now();
         let mut e = Explorer { threads: &threads, expected, bound, executions: 0, transitions: 0, max_points: 0, outcomes: BTreeMap::new(), violations: vec![], cap, capped: false, name: name.clone(), pruned: false, last_round: 0, t0: Instant::now(), wall_cap: Duration::from_secs(if thorough { 240 } else { 6 }) };
